@@ -129,10 +129,12 @@ class EarlyStopping(CallbackBase):
         ) - self.value_getter(self.quantity_name)
 
     def _relative_change(self):
-        relative_change = self._change_in_metric() / self.value_getter(
-            self.quantity_name, -self.patience - 1
-        )
-        return abs(relative_change)
+        change = self._change_in_metric()
+        reference = self.value_getter(self.quantity_name, -self.patience - 1)
+        if reference == 0:
+            # no finite relative deviation from a zero reference unless nothing changed
+            return 0.0 if change == 0 else float("inf")
+        return abs(change / reference)
 
     def _absolute_change(self):
         return abs(self._change_in_metric())
